@@ -87,15 +87,47 @@ Qed.
 
 (* ---------- layer (c): the meaning of a translated program ---------- *)
 Definition task_inputs (t : ext_task) : list pred := ug_input_predicates (et_user_guide t).
-Definition ext_voc (t : ext_task) (P : program) : list pred := program_preds P ++ task_inputs t.
+(* the vocabulary on which a program's external behaviour is read: the predicates of the program
+   and the PUBLIC predicates (input and output) declared in the user guide.  An output predicate
+   that does not occur in the program is part of the vocabulary: an external stable model gives it
+   the empty extent.  (Before the audit - finding A4 - the vocabulary was program_preds P ++
+   inputs, so a declared output predicate missing from P was cut away by [restrict] and the
+   behavioural difference "P never produces it" was invisible: finding F17.) *)
+Definition ext_voc (t : ext_task) (P : program) : list pred :=
+  program_preds P ++ ug_public_predicates (et_user_guide t).
 
-(* "M is an external stable model of P": the restriction of M to P's predicates and the input
+(* "M is an external stable model of P": the restriction of M to P's predicates and the public
    predicates is a stable model (reference semantics) of P - its placeholders read as FI reads
    them - together with M's own input facts *)
 Definition ext_stable_full (t : ext_task) (FI : fint) (M : pint) (P : program) : Prop :=
   stable (restrict (ext_voc t P) M)
          (ph_program FI (task_placeholders t) P)
          (input_facts (restrict (ext_voc t P) M) (task_inputs t)).
+
+(* the class outside which the emitted problems speak about the whole public vocabulary: every
+   output predicate declared in the user guide occurs in the program (completion.rs completes only
+   predicates that occur in the theory, so a missing output predicate gets NO completed definition
+   `forall X (p(X) <-> #false)` on that side) *)
+Definition outputs_occur_in (t : ext_task) (P : program) : Prop :=
+  incl (ug_output_predicates (et_user_guide t)) (program_preds P).
+Definition outputs_occur_inb (t : ext_task) (P : program) : bool :=
+  forallb (fun q => memb pred_dec q (program_preds P)) (ug_output_predicates (et_user_guide t)).
+Lemma outputs_occur_inb_spec t P : outputs_occur_inb t P = true <-> outputs_occur_in t P.
+Proof.
+  unfold outputs_occur_inb, outputs_occur_in, incl. rewrite forallb_forall.
+  split; intros H q Hq; specialize (H q Hq); destruct (memb_spec pred_dec q (program_preds P)); auto; discriminate.
+Qed.
+(* both sides of a program-vs-program task *)
+Definition outputs_occur (t : ext_task) : Prop :=
+  (match et_specification t return Prop with inl L => outputs_occur_in t L | inr _ => True end) /\
+  outputs_occur_in t (et_program t).
+Definition outputs_occurb (t : ext_task) : bool :=
+  (match et_specification t with inl L => outputs_occur_inb t L | inr _ => true end) && outputs_occur_inb t (et_program t).
+Lemma outputs_occurb_spec t : outputs_occurb t = true <-> outputs_occur t.
+Proof.
+  unfold outputs_occurb, outputs_occur. rewrite andb_true_iff, <- (outputs_occur_inb_spec t (et_program t)).
+  destruct (et_specification t); [rewrite <- outputs_occur_inb_spec|]; intuition.
+Qed.
 
 Section Full.
 Variable fuel : nat.
@@ -104,11 +136,12 @@ Notation translate := (theory_translate tau_star_total completion (simp_classic_
 Theorem translate_meaning_full t P G th :
   is_tight P = true ->
   (forall r h, In r P -> head_pred (rhead r) = Some h -> ~ In h (task_inputs t)) ->
+  outputs_occur_in t P ->
   TauStar.tau_star P = Some G ->
   translate t (task_placeholders t) P = Some th ->
   forall FI M, tvalid FI M th <-> ext_stable_full t FI M P.
 Proof.
-  intros Ht Hins Hts Htr FI M. unfold theory_translate, tau_star_total in Htr. rewrite Hts in Htr.
+  intros Ht Hins Hout Hts Htr FI M. unfold theory_translate, tau_star_total in Htr. rewrite Hts in Htr.
   fold (task_inputs t) in Htr.
   destruct (completion (rp_theory (task_placeholders t) G) (task_inputs t)) as [D|] eqn:HD; [|discriminate].
   assert (E1 : tvalid FI M th <-> (forall f, In f D -> cvalid FI M f)).
@@ -125,7 +158,10 @@ Proof.
   - rewrite ph_is_tight. exact Ht.
   - intros r' h Hr' Hh. destruct (ph_in_heads FI m P r' h Hr' Hh) as [r [Hr Hh']]. eapply Hins; eauto.
   - exact HD.
-  - intros p d [_ Hin]. unfold S, ext_voc in Hin. apply in_app_or in Hin. rewrite ph_program_preds. exact Hin.
+  - intros p d [_ Hin]. unfold S, ext_voc in Hin. apply in_app_or in Hin. rewrite ph_program_preds.
+    destruct Hin as [Hin|Hin]; [left; exact Hin|].
+    unfold ug_public_predicates in Hin. apply in_iset_extend in Hin. destruct Hin as [Hin|Hin]; [right; exact Hin|].
+    left. apply Hout. exact Hin.
 Qed.
 
 (* ---------- what an accepted task guarantees ---------- *)
@@ -191,6 +227,7 @@ Theorem C02_full_proof t L w pbs lft rgt :
   external_decompose_full fuel t = XOk w pbs ->
   is_tight L = true -> is_tight (et_program t) = true ->
   tl t L = Some lft -> tr t = Some rgt ->
+  outputs_occur t ->
   (forall vt, task_validated tau_star_total completion (simp_classic_total fuel) t = Some vt -> validated_no_clash vt) ->
   forall FI M,
     tvalid FI M (map (fun a => rp_formula (task_placeholders t) (an_formula a)) (filter is_assumption (ug_formulas (et_user_guide t)))) ->
@@ -201,7 +238,7 @@ Theorem C02_full_proof t L w pbs lft rgt :
      (dir_backward (et_direction t) = true /\
       ext_stable_full t FI (reindex (task_mapping t) M) (et_program t) /\ ~ ext_stable_full t FI M L)).
 Proof.
-  intros Hs Ho Hfull HtL HtR El Er Hn FI M Hug Hal Har.
+  intros Hs Ho Hfull HtL HtR El Er [HoL HoR] Hn FI M Hug Hal Har. rewrite Hs in HoL.
   destruct (full_ok_inv t w pbs Hfull) as [[w0 Hv] [Hd [[GR HGR] HGL]]].
   destruct (HGL L Hs) as [GL HGL'].
   destruct (validate_conditions _ _ t w0 Hv) as [_ [_ [Hhead _]]].
@@ -217,10 +254,10 @@ Proof.
   unfold task_left in El. destruct (translate t (task_placeholders t) L) as [thl|] eqn:Etl; [|discriminate].
   unfold task_right in Er. destruct (translate t (task_placeholders t) (et_program t)) as [thr|] eqn:Etr; [|discriminate].
   assert (EL : forall M0, es t FI M0 L <-> ext_stable_full t FI M0 L).
-  { intros M0. unfold es. rewrite Etl. apply (translate_meaning_full t L GL thl HtL (no_input_in_head t L HhL) HGL' Etl). }
+  { intros M0. unfold es. rewrite Etl. apply (translate_meaning_full t L GL thl HtL (no_input_in_head t L HhL) HoL HGL' Etl). }
   assert (ER : forall M0, es t FI M0 (et_program t) <-> ext_stable_full t FI M0 (et_program t)).
   { intros M0. unfold es. rewrite Etr.
-    apply (translate_meaning_full t (et_program t) GR thr HtR (no_input_in_head t _ HhR) HGR Etr). }
+    apply (translate_meaning_full t (et_program t) GR thr HtR (no_input_in_head t _ HhR) HoR HGR Etr). }
   rewrite !EL, !ER. reflexivity.
 Qed.
 
